@@ -78,6 +78,8 @@ class Stats:
         self.handles += rec.steps or 0
         if (rec.steps or 0) > self.probes.get('max_handles_in_one_run', 0):
             self.probes['max_handles_in_one_run'] = rec.steps
+        if (getattr(rec, 'max_lag', 0) or 0) > self.probes.get('max_handles_from_last_external_event_to_run_end', 0):
+            self.probes['max_handles_from_last_external_event_to_run_end'] = rec.max_lag
         self.vtime += rec.vtime or 0.0
         self.ticks += rec.ticks or 0
 
@@ -113,6 +115,10 @@ class Prop:
     def k(self):
         return self.k_quick if self.tier == 'quick' else self.k_thorough
 
+    def size(self):
+        """upper bound on main nodes per program: deeper in the thorough tier"""
+        return self.n_max if self.tier == 'quick' else self.n_max + 4
+
     def get_classes(self):
         import os
         env = os.environ.get('VERIF_CLASSES')  # experiments only (class triage); never set by registered commands
@@ -120,7 +126,7 @@ class Prop:
 
     def gen_spec(self, rng):
         return gen.gen_program(rng, self.weighted_classes(), faults=self.faults and rng.random() < 0.75,
-                               n_max=self.n_max)
+                               n_max=self.size())
 
     def weighted_classes(self):
         # the recurrent and cross-scope classes carry most of the schedule-sensitive behaviour: drawn twice as often
@@ -368,7 +374,7 @@ class C05(Prop):
 
     def gen_spec(self, rng):
         return gen.gen_program(rng, self.weighted_classes(), faults=True, n_fault_nodes=rng.choice([1, 1, 2, 2, 3, 4]),
-                               n_max=self.n_max)
+                               n_max=self.size())
 
     def nontrivial(self, case, rec, refs):
         return not refs[0].outcome.ok
@@ -492,7 +498,7 @@ class C12(Prop):
 
     def gen_spec(self, rng):
         return gen.gen_program(rng, self.weighted_classes(), faults=True, n_fault_nodes=rng.choice([1, 2, 2, 3, 4]),
-                               n_max=self.n_max)
+                               n_max=self.size())
 
     def nontrivial(self, case, rec, refs):
         h = rec.fault_hits or {}
@@ -571,7 +577,7 @@ class C07(Prop):
         case = super().gen(rng)
         case['mode'] = 'sequence'
         case['reuse_chart'] = True
-        case['runs'] = distinct_inputs(rng, rng.choice([2, 2, 3, 4]))
+        case['runs'] = distinct_inputs(rng, rng.choice([2, 2, 3, 4] if self.tier == 'quick' else [2, 3, 4, 5, 6]))
         if rng.random() < 0.2:
             case['cancel'] = {str(rng.randrange(1, 80)): [0]}
         return case
@@ -621,7 +627,7 @@ class C08(Prop):
         case = super().gen(rng)
         case['mode'] = 'overlap'
         case['share_chart'] = rng.random() < 0.8
-        case['runs'] = distinct_inputs(rng, rng.choice([2, 2, 3, 4]))
+        case['runs'] = distinct_inputs(rng, rng.choice([2, 2, 3, 4] if self.tier == 'quick' else [2, 3, 4, 5, 6]))
         if rng.random() < 0.25:
             case['cancel'] = {str(rng.randrange(1, 120)): [rng.randrange(len(case['runs']))]}
         return case
